@@ -111,17 +111,18 @@ func snapshot(res jsonapi.Resource) map[string]string {
 }
 
 // checkResourceObject: C03/C04 clauses on one resource object of the output tree.
-func checkResourceObject(n *jnode, res jsonapi.Resource, prepath string, fields []string, relData map[string][]string) string {
+func checkResourceObject(v *verdicts, n *jnode, res jsonapi.Resource, prepath string, fields []string, relData map[string][]string) {
 	if n == nil || n.kind != 'o' {
-		return "resource object is not an object"
+		v.fail("C03,C04", "resource object is not an object")
+		return
 	}
 	typ := res.GetType()
 	id := res.Get("id").(string)
 	if t := n.get("type"); t == nil || t.kind != 's' || t.text != typ.Name {
-		return "type member"
+		v.fail("C03", "type member")
 	}
 	if t := n.get("id"); t == nil || t.kind != 's' || t.text != id {
-		return "id member"
+		v.fail("C03", "id member")
 	}
 	want := prepath
 	if !strings.HasSuffix(want, "/") {
@@ -129,14 +130,13 @@ func checkResourceObject(n *jnode, res jsonapi.Resource, prepath string, fields 
 	}
 	self := n.get("links").get("self")
 	if self == nil || self.kind != 's' {
-		return "self link missing"
-	}
-	if id != "" && typ.Name != "" {
+		v.fail("C03", "self link missing")
+	} else if id != "" && typ.Name != "" {
 		if self.text != want+typ.Name+"/"+id {
-			return "self link is " + self.text
+			v.fail("C03", "self link is "+self.text)
 		}
 	} else if !strings.HasPrefix(self.text, want) {
-		return "self link without prefix"
+		v.fail("C03", "self link without prefix")
 	}
 	in := func(l []string, s string) bool {
 		for _, x := range l {
@@ -151,13 +151,13 @@ func checkResourceObject(n *jnode, res jsonapi.Resource, prepath string, fields 
 	for name := range typ.Attrs {
 		has := attrs.get(name) != nil
 		if has != in(fields, name) {
-			return fmt.Sprintf("attribute %q present=%v selected=%v", name, has, in(fields, name))
+			v.fail("C04", fmt.Sprintf("attribute %q present=%v selected=%v", name, has, in(fields, name)))
 		}
 	}
 	if attrs != nil {
 		for _, k := range attrs.keys {
 			if _, ok := typ.Attrs[k]; !ok {
-				return "attribute " + k + " is not an attribute of the type"
+				v.fail("C04", "attribute "+k+" is not an attribute of the type")
 			}
 		}
 	}
@@ -165,18 +165,18 @@ func checkResourceObject(n *jnode, res jsonapi.Resource, prepath string, fields 
 	for name, rel := range typ.Rels {
 		ro := rels.get(name)
 		if (ro != nil) != in(fields, name) {
-			return fmt.Sprintf("relationship %q present=%v selected=%v", name, ro != nil, in(fields, name))
+			v.fail("C04", fmt.Sprintf("relationship %q present=%v selected=%v", name, ro != nil, in(fields, name)))
 		}
 		if ro == nil {
 			continue
 		}
 		l := ro.get("links")
 		if l.get("self") == nil || l.get("related") == nil {
-			return "relationship links"
+			v.fail("C03", "relationship links")
 		}
 		data := ro.get("data")
 		if (data != nil) != in(relData[typ.Name], name) {
-			return fmt.Sprintf("relationship %q data present=%v requested=%v", name, data != nil, in(relData[typ.Name], name))
+			v.fail("C04", fmt.Sprintf("relationship %q data present=%v requested=%v", name, data != nil, in(relData[typ.Name], name)))
 		}
 		if data == nil {
 			continue
@@ -185,38 +185,47 @@ func checkResourceObject(n *jnode, res jsonapi.Resource, prepath string, fields 
 			rid := res.Get(name).(string)
 			if rid == "" {
 				if data.kind != 'n' {
-					return "empty to-one is not null"
+					v.fail("C04", "empty to-one is not null")
 				}
-			} else if data.kind != 'o' || data.get("id") == nil || data.get("id").text != rid || data.get("type") == nil || data.get("type").text != rel.ToType || len(data.keys) != 2 {
-				return "to-one identifier"
+			} else if data.kind != 'o' || data.get("id") == nil || data.get("id").kind != 's' || data.get("type") == nil || data.get("type").kind != 's' || len(data.keys) != 2 {
+				v.fail("C03,C04", "to-one data is not one type/id identifier")
+			} else if data.get("id").text != rid || data.get("type").text != rel.ToType {
+				v.fail("C04", "to-one identifier is not the related ID with the target type")
 			}
 		} else {
 			ids := append([]string{}, res.Get(name).([]string)...)
 			sort.Strings(ids)
-			if data.kind != 'a' || len(data.items) != len(ids) {
-				return "to-many data is not the list of related IDs"
+			if data.kind != 'a' {
+				v.fail("C03,C04", "to-many data is not an array")
+				continue
+			}
+			if len(data.items) != len(ids) {
+				v.fail("C04", "to-many data is not the list of related IDs")
 			}
 			got := []string{}
 			for _, it := range data.items {
-				if it.kind != 'o' || it.get("id") == nil || it.get("type") == nil || it.get("type").text != rel.ToType || it.get("id").kind != 's' {
-					return "to-many identifier"
+				if it.kind != 'o' || it.get("id") == nil || it.get("type") == nil || it.get("type").kind != 's' || it.get("id").kind != 's' || len(it.keys) != 2 {
+					v.fail("C03,C04", "to-many element is not a type/id identifier")
+					continue
+				}
+				if it.get("type").text != rel.ToType {
+					v.fail("C04", "to-many identifier without the target type")
 				}
 				got = append(got, it.get("id").text)
 			}
 			sort.Strings(got)
 			if strings.Join(got, "\x00") != strings.Join(ids, "\x00") {
-				return "to-many IDs differ"
+				v.fail("C04", "to-many IDs differ")
 			}
 		}
 	}
 	if rels != nil {
 		for _, k := range rels.keys {
 			if _, ok := typ.Rels[k]; !ok {
-				return "relationship " + k + " is not a relationship of the type"
+				v.fail("C04", "relationship "+k+" is not a relationship of the type")
 			}
 		}
 	}
-	return ""
 }
 
 func genMarshalRes(r *Rng, typ jsonapi.Type, o *Out) (jsonapi.Resource, map[string]any) {
@@ -283,6 +292,11 @@ func suiteMarshal(r *Rng, n int, thorough bool, o *Out) {
 		if r.chance(1, 4) {
 			relData["other"] = []string{"x"}
 		}
+		if r.chance(1, 3) { // C01's case: every field and every relationship's data
+			fields = append([]string{}, typ.Fields()...)
+			relData[tname] = sortedKeys(typ.Rels)
+			r.Shuffle(len(fields), func(i, j int) { fields[i], fields[j] = fields[j], fields[i] })
+		}
 		op := lst("marshal", "res", sxResView(res), hx(prepath), hxs(fields), sxFieldsMap(relData), metaSx(meta))
 		before := snapshot(res)
 		var out []byte
@@ -292,14 +306,32 @@ func suiteMarshal(r *Rng, n int, thorough bool, o *Out) {
 			continue
 		}
 		obs, tree := jsonSx(out)
-		pv := "ok"
+		var v verdicts
 		if tree == nil || strings.HasPrefix(obs, "duplicate") {
-			pv = "FAIL:output is not valid JSON without duplicate keys"
-		} else if m := checkResourceObject(tree, res, prepath, fields, relData); m != "" {
-			pv = "FAIL:" + m
+			v.fail("C03", "output is not valid JSON without duplicate keys")
+		} else {
+			checkResourceObject(&v, tree, res, prepath, fields, relData)
+		}
+		// C01: unmarshal what was written against a schema holding the type; selected fields
+		// come back with the same value, the others zero (all selected: the whole resource)
+		sch := &jsonapi.Schema{}
+		_ = sch.AddType(typ.Copy())
+		obsU, pvU, back := runUnmarshalRes("UnmarshalResource", out, sch, false)
+		switch {
+		case back == nil && strings.HasPrefix(pvU, "FAIL"):
+			v.fail("C01", "unmarshaling the marshaled resource: "+pvU)
+		case back == nil:
+			v.fail("C01", "the marshaled resource is rejected")
+		default:
+			if m := sameResource(res, back, fields, relData[tname]); m != "" {
+				v.fail("C01", "round trip: "+m)
+			}
+		}
+		if len(fields) >= len(typ.Fields()) {
+			o.stat("roundtrip.all-fields")
 		}
 		// C11: repeat, and permute the order-irrelevant parts
-		for k := 0; k < reps && pv == "ok"; k++ {
+		for k := 0; k < reps; k++ {
 			f2 := append([]string{}, fields...)
 			r.Shuffle(len(f2), func(i, j int) { f2[i], f2[j] = f2[j], f2[i] })
 			rd2 := map[string][]string{}
@@ -318,18 +350,19 @@ func suiteMarshal(r *Rng, n int, thorough bool, o *Out) {
 			var out2 []byte
 			guard(func() { out2 = jsonapi.MarshalResource(res, prepath, f2, rd2) })
 			if !bytes.Equal(out, out2) {
-				pv = "FAIL:output changes between calls or under reordering of lists"
+				v.fail("C11", "output changes between calls or under reordering of lists")
 			}
 		}
-		if pv == "ok" {
-			after := snapshot(res)
-			for k, v := range before {
-				if after[k] != v {
-					pv = "FAIL:marshaling changed what is read from the resource (" + k + ")"
-				}
+		after := snapshot(res)
+		for k, x := range before {
+			if after[k] != x {
+				v.fail("C11", "marshaling changed what is read from the resource ("+k+")")
 			}
 		}
+		pv := v.String()
 		o.emit(op, obs, pv)
+		// the unmarshaling half of the round trip, against the model's UnmarshalResource
+		o.emit(lst("unm", "res", sxSSchema([]stype{{typ: typ, backed: false}}), sxResSke(out)), obsU, "na")
 	}
 }
 
